@@ -30,7 +30,7 @@ func (e *Engine) Name() string         { return "cosched" }
 func (e *Engine) Properties() []string { return []string{"C06"} }
 func (e *Engine) Level() string        { return "exploration" }
 func (e *Engine) Rule() string {
-	return "driver A: 1-4 generated coroutine bodies (yields of 0-3 values at several depths, in loops, from a nested call, as a tail-called yield, returns, raises) and a tape-drawn schedule of <=30 host-side Resume calls (any thread incl. dead ones, 0-3 arguments) executed through the Go API and on model coroutines; per step the resume state, the values in order and number, the status of every thread and the interleaved emits must agree; a one-shot error is injected at every instruction index. driver B: generated SimLua programs driving coroutines from Lua (profile coroutine) under the faultsweep oracle. distinct_nontrivial = distinct (bodies, schedule, fault point) triples that fired, plus driver B's"
+	return "driver A: 1-4 generated coroutine bodies (yields of 0-3 values at several depths, in loops, from a nested call, as a tail-called yield, returns, raises) and a tape-drawn schedule of <=30 host-side Resume calls (any thread incl. dead ones, 0-3 arguments) executed through the Go API and on model coroutines; per step the resume state, the values in order and number, the status of every thread and the interleaved emits must agree; a one-shot error is injected at every instruction index. driver B: generated SimLua programs driving coroutines from Lua (profile coroutine) under the faultsweep oracle. sub-mode exhaustive (sub_mode_runs.exhaustive): for 4 (quick) / 60 (thorough) generated body pairs, every one of the 126 resume sequences of length <= 6 over two coroutines is enumerated (run index i = pair i/126, sequence i%126), with a reduced fault sweep. distinct_nontrivial = distinct (bodies, schedule, fault point) triples that fired, plus driver B's"
 }
 func (e *Engine) RealComponents() []string {
 	return []string{"coroutine library (create/resume/yield/wrap/status/running)", "LState.NewThread/Resume/Status/XMoveTo", "threadRun/switchToParentThread/callGFunction yield path", "VM", "PCall recovery inside and around coroutines"}
@@ -174,7 +174,27 @@ func normTrace(tr []string) []string {
 	return out
 }
 
+// schedules of length 1..6 over two coroutines: 2+4+...+64 = 126
+const nSchedules = 126
+
 func (e *Engine) Run(t *core.Tape, cfg *core.Config, st *core.Stats) *core.Violation {
+	if cfg.Sub == "exhaustive" || (len(cfg.Aux) > 0 && cfg.Aux[0] == -2) {
+		// bounded-exhaustive sub-mode: run index i = (body pair i/126, schedule i%126); every resume sequence of
+		// length <= 6 over two coroutines is enumerated for every generated body pair
+		idx := cfg.RunIndex
+		c2 := *cfg
+		c2.Aux = nil
+		if len(cfg.Aux) > 0 {
+			idx = cfg.Aux[1]
+			c2.Aux = cfg.Aux[2:]
+		}
+		st.Probe("exhaustive_schedule")
+		v := e.driverA(core.NewTape(core.Mix(0xC06, uint64(idx/nSchedules))), &c2, st, int(idx%nSchedules))
+		if v != nil {
+			v.Aux = append([]int64{-2, idx}, v.Aux...)
+		}
+		return v
+	}
 	d := t.Choose(3)
 	if (len(cfg.Aux) == 0 && d == 0) || (len(cfg.Aux) > 0 && cfg.Aux[0] < 0) {
 		// driver B (Lua-side driver) under the faultsweep oracle; Aux[0] = -1 marks its replays
@@ -189,14 +209,17 @@ func (e *Engine) Run(t *core.Tape, cfg *core.Config, st *core.Stats) *core.Viola
 		}
 		return v
 	}
-	return e.driverA(t, cfg, st)
+	return e.driverA(t, cfg, st, -1)
 }
 
-func (e *Engine) driverA(t *core.Tape, cfg *core.Config, st *core.Stats) *core.Violation {
+func (e *Engine) driverA(t *core.Tape, cfg *core.Config, st *core.Stats, enumSched int) *core.Violation {
 	st.Probe("driver_A")
 	prof := ir.ProfileFor("cobodies")
 	prof.Disabled = cfg.Disabled
 	n := 1 + t.Choose(4)
+	if enumSched >= 0 {
+		n = 2
+	}
 	prog, bodies := ir.GenerateBodies(t, prof, n)
 	src := ir.Render(prog, ir.DrawLayout(t)).Source
 	proto, err := hostapi.Compile(src)
@@ -208,9 +231,26 @@ func (e *Engine) driverA(t *core.Tape, cfg *core.Config, st *core.Stats) *core.V
 	}
 	// the schedule
 	ns := 2 + t.Choose(29)
+	if enumSched >= 0 {
+		// decode: lengths 1..6, then the bits say which of the two coroutines is resumed at each step
+		ns = 1
+		rest := enumSched
+		for rest >= 1<<uint(ns) {
+			rest -= 1 << uint(ns)
+			ns++
+		}
+		enumSched = rest
+	}
 	sched := make([][]float64, ns)
 	who := make([]int, ns)
 	for i := range sched {
+		if enumSched >= 0 {
+			who[i] = (enumSched >> uint(i)) & 1
+			for j := 0; j < i%3; j++ {
+				sched[i] = append(sched[i], float64(10*(i+1)+j))
+			}
+			continue
+		}
 		who[i] = t.Choose(n)
 		na := t.Choose(4)
 		for j := 0; j < na; j++ {
@@ -322,6 +362,9 @@ func (e *Engine) driverA(t *core.Tape, cfg *core.Config, st *core.Stats) *core.V
 	capPts := int64(300)
 	if cfg.Thorough {
 		capPts = 1200
+	}
+	if enumSched >= 0 {
+		capPts = 60
 	}
 	stride := int64(1)
 	if S > capPts {
